@@ -589,6 +589,10 @@ impl Machine {
         // log::trace!("upper base:{}, upvalue:{}", upper_base, offset);
         let abs_pos = Self::get_upvalue_offset(upper_base, ov);
         let end = abs_pos + size as usize;
+        #[cfg(feature = "verif-hooks")]
+        crate::verif::check(end <= self.stack.len(), || {
+            format!("open-upvalue pos={abs_pos} size={size} stack_len={}", self.stack.len())
+        });
         let slice = unsafe {
             let vstart = self.stack.as_slice().as_ptr().add(abs_pos);
             slice::from_raw_parts(vstart, size as usize)
@@ -600,6 +604,10 @@ impl Machine {
             self.closures.contains_key(idx.0),
             "Invalid Closure Id referred"
         );
+        #[cfg(feature = "verif-hooks")]
+        crate::verif::check(self.closures.contains_key(idx.0), || {
+            format!("closure-key invalid key={:?}", idx.0)
+        });
         unsafe { self.closures.get_unchecked(idx.0) }
     }
     pub(crate) fn get_closure_mut(&mut self, idx: ClosureIdx) -> &mut Closure {
@@ -607,7 +615,56 @@ impl Machine {
             self.closures.contains_key(idx.0),
             "Invalid Closure Id referred"
         );
+        #[cfg(feature = "verif-hooks")]
+        crate::verif::check(self.closures.contains_key(idx.0), || {
+            format!("closure-key invalid (mut) key={:?}", idx.0)
+        });
         unsafe { self.closures.get_unchecked_mut(idx.0) }
+    }
+    /// Flat words and cursor of the global (dsp) state storage.
+    #[cfg(feature = "verif-hooks")]
+    pub fn verif_global_state(&self) -> (&[u64], usize) {
+        (&self.global_states.rawdata, self.global_states.pos)
+    }
+    /// Current length of the value stack.
+    #[cfg(feature = "verif-hooks")]
+    pub fn verif_stack_len(&self) -> usize {
+        self.stack.len()
+    }
+    /// Number of live arrays.
+    #[cfg(feature = "verif-hooks")]
+    pub fn verif_array_count(&self) -> usize {
+        self.arrays.data.len()
+    }
+    /// Record (and bounds-check) a state operation on the active storage.
+    #[cfg(feature = "verif-hooks")]
+    fn verif_state_op(&self, kind: crate::verif::Kind, size: usize) {
+        let (ctx_fn, ctx_id, st) = match self.states_stack.0.last() {
+            None => (-1, 0, &self.global_states),
+            Some(idx) => match self.closures.get(idx.0) {
+                Some(c) => (
+                    c.fn_proto_pos as i64,
+                    idx.0.data().as_ffi(),
+                    &c.state_storage,
+                ),
+                None => {
+                    crate::verif::violation(format!(
+                        "closure-key invalid (state ctx) key={:?}",
+                        idx.0
+                    ));
+                    return;
+                }
+            },
+        };
+        crate::verif::state_op(crate::verif::StateEvent {
+            backend: crate::verif::Backend::Vm,
+            ctx_fn,
+            ctx_id,
+            kind,
+            pos: st.pos,
+            size,
+            len: st.rawdata.len(),
+        });
     }
     fn get_current_state(&mut self) -> &mut StateStorage {
         if self.states_stack.0.is_empty() {
@@ -916,6 +973,8 @@ impl Machine {
             //     log::trace!("{line}");
             // }
             let mut increment = 1;
+            #[cfg(feature = "verif-hooks")]
+            crate::verif::step();
             match self.get_fnproto(func_i).bytecodes[pcounter] {
                 Instruction::Move(dst, src) => {
                     self.set_stack(dst as i64, self.get_stack(src as i64));
@@ -1033,6 +1092,13 @@ impl Machine {
                     // Load data from heap to stack
                     let heap_addr = self.get_stack(src as i64);
                     let heap_idx = Self::get_as::<heap::HeapIdx>(heap_addr);
+                    #[cfg(feature = "verif-hooks")]
+                    if !self.heap.contains_key(heap_idx) {
+                        crate::verif::misc(crate::verif::MiscEvent::DeadHandle {
+                            op: "BoxLoad",
+                            raw: heap_addr,
+                        });
+                    }
                     let heap_obj = self
                         .heap
                         .get(heap_idx)
@@ -1055,6 +1121,13 @@ impl Machine {
                     let heap_idx = Self::get_as::<heap::HeapIdx>(heap_addr);
                     let (_, src_data) = self.get_stack_range(src as i64, inner_size);
                     let data = src_data.to_vec();
+                    #[cfg(feature = "verif-hooks")]
+                    if !self.heap.contains_key(heap_idx) {
+                        crate::verif::misc(crate::verif::MiscEvent::DeadHandle {
+                            op: "BoxStore",
+                            raw: heap_addr,
+                        });
+                    }
                     let heap_obj = self
                         .heap
                         .get_mut(heap_idx)
@@ -1187,6 +1260,16 @@ impl Machine {
                     };
                 }
                 Instruction::GetGlobal(dst, gid, size) => {
+                    #[cfg(feature = "verif-hooks")]
+                    crate::verif::check(
+                        gid as usize + size as usize <= self.global_vals.len(),
+                        || {
+                            format!(
+                                "global-get gid={gid} size={size} len={}",
+                                self.global_vals.len()
+                            )
+                        },
+                    );
                     let gvs = unsafe {
                         let vstart = self.global_vals.as_ptr().offset(gid as _);
                         debug_assert!(!vstart.is_null());
@@ -1196,6 +1279,16 @@ impl Machine {
                     self.set_stack_range(dst as i64, gvs)
                 }
                 Instruction::SetGlobal(gid, src, size) => {
+                    #[cfg(feature = "verif-hooks")]
+                    crate::verif::check(
+                        gid as usize + size as usize <= self.global_vals.len(),
+                        || {
+                            format!(
+                                "global-set gid={gid} size={size} len={}",
+                                self.global_vals.len()
+                            )
+                        },
+                    );
                     let gvs = unsafe {
                         let vstart = self.global_vals.as_mut_ptr().offset(gid as _);
                         debug_assert!(!vstart.is_null());
@@ -1344,6 +1437,8 @@ impl Machine {
                     buffer.copy_from_slice(&src_words);
                 }
                 Instruction::GetState(dst, size) => {
+                    #[cfg(feature = "verif-hooks")]
+                    self.verif_state_op(crate::verif::Kind::Get, size as usize);
                     //force borrow because state storage and stack never collisions
                     let v: &[RawVal] = unsafe {
                         std::mem::transmute(self.get_current_state().get_state(size as _))
@@ -1351,6 +1446,8 @@ impl Machine {
                     self.set_stack_range(dst as i64, v);
                 }
                 Instruction::SetState(src, size) => {
+                    #[cfg(feature = "verif-hooks")]
+                    self.verif_state_op(crate::verif::Kind::Set, size as usize);
                     let vs = {
                         let (_range, v) = self.get_stack_range(src as i64, size as _);
                         unsafe { std::mem::transmute::<&[RawVal], &[RawVal]>(v) }
@@ -1358,13 +1455,36 @@ impl Machine {
                     let dst = self.get_current_state().get_state_mut(size as _);
                     dst.copy_from_slice(vs);
                 }
+                #[cfg(feature = "verif-hooks")]
+                Instruction::PushStatePos(v) => {
+                    self.verif_state_op(crate::verif::Kind::Push, Into::<u64>::into(v) as usize);
+                    self.get_current_state().push_pos(v)
+                }
+                #[cfg(feature = "verif-hooks")]
+                Instruction::PopStatePos(v) => {
+                    self.verif_state_op(crate::verif::Kind::Pop, Into::<u64>::into(v) as usize);
+                    self.get_current_state().pop_pos(v)
+                }
+                #[cfg(not(feature = "verif-hooks"))]
                 Instruction::PushStatePos(v) => self.get_current_state().push_pos(v),
+                #[cfg(not(feature = "verif-hooks"))]
                 Instruction::PopStatePos(v) => self.get_current_state().pop_pos(v),
                 Instruction::Delay(dst, src, time) => {
                     let i = self.get_stack(src as i64);
                     let t = self.get_stack(time as i64);
                     let delaysize_i =
                         unsafe { self.delaysizes_pos_stack.last().unwrap_unchecked() };
+                    #[cfg(feature = "verif-hooks")]
+                    crate::verif::check(
+                        *delaysize_i < self.get_fnproto(func_i).delay_sizes.len(),
+                        || {
+                            format!(
+                                "delay-size index={} len={} func_i={func_i}",
+                                *delaysize_i,
+                                self.get_fnproto(func_i).delay_sizes.len()
+                            )
+                        },
+                    );
 
                     let size_in_samples = unsafe {
                         *self
@@ -1372,6 +1492,8 @@ impl Machine {
                             .delay_sizes
                             .get_unchecked(*delaysize_i)
                     };
+                    #[cfg(feature = "verif-hooks")]
+                    self.verif_state_op(crate::verif::Kind::Delay, size_in_samples as usize + 2);
                     let mut ringbuf = self.get_current_state().get_as_ringbuffer(size_in_samples);
 
                     let res = ringbuf.process(i, t);
@@ -1379,6 +1501,8 @@ impl Machine {
                 }
                 Instruction::Mem(dst, src) => {
                     let s = self.get_stack(src as i64);
+                    #[cfg(feature = "verif-hooks")]
+                    self.verif_state_op(crate::verif::Kind::Mem, 1);
                     let ptr = self.get_current_state().get_state_mut(1);
                     let v = Self::to_value(ptr[0]);
                     self.set_stack(dst as i64, v);
